@@ -728,8 +728,14 @@ pub(super) fn translate_select_item(cid: rq::CId, ctx: &mut Context) -> Result<S
     if inferred_name != expected {
         // use expected name
         let ident = expected.cloned().unwrap_or_else(|| {
-            // or use something that will not clash with other names
-            ctx.anchor.col_name.gen()
+            // or use something that will not clash with other names: regenerate
+            // until unused, a user column may be spelled like a generated name
+            // (`_expr_0`)
+            let mut name = ctx.anchor.col_name.gen();
+            while ctx.anchor.column_names.values().any(|n| *n == name) {
+                name = ctx.anchor.col_name.gen();
+            }
+            name
         });
         ctx.anchor.column_names.insert(cid, ident.to_string());
 
